@@ -688,7 +688,8 @@ package participle
 // textScannerTransform strips the quotes of string/char/raw-string tokens. Assumed about text/scanner: a
 // Char or RawString token whose scan reported no error is a complete literal (at least the two quotes).
 //@ func textScannerTransform [C19]
-//@   requires @assumed (token.Type == scanner.Char || token.Type == scanner.RawString) ==> len(token.Value) >= 2
+//@   requires uf("scan_ok", "Bool", token.Type)
+//@   requires @assumed uf("scan_ok", "Bool", token.Type) && (token.Type == scanner.Char || token.Type == scanner.RawString) ==> len(token.Value) >= 2
 //@   ensures result1 != nil ==> implements(result1, Error)
 
 //@ func (*structLexer).GetField [C19]
@@ -699,4 +700,4 @@ package participle
 //@ func (*tagLexer).Next [C19]
 //@   requires t.scanner != nil
 //@   modifies t.err
-//@   before call participle.textScannerTransform#1: assert t.err == nil [C19]
+//@   assume call (*scanner.Scanner).TokenText#1: t.err == nil ==> uf("scan_ok", "Bool", typ)
